@@ -51,6 +51,7 @@ def dispatch (l : Line) : List Verdict :=
   | "nonces" => handleNonces l
   | "cookiedec" => handleCookieDec l
   | "tamper09" => handleTamper09 l
+  | "relogin09" => handleRelogin09 l
   | "outscan" => handleOutScan l
   | "url04" => handleUrl04 l
   | "esc04" => handleEsc04 l
